@@ -276,7 +276,7 @@ def coq_run_shards(tag, imports, ok_def, shards):
     t0 = time.time()
     files = []
     for k, (defs, cases) in enumerate(shards):
-        name = os.path.join(BUILD, f"cases_{tag}_{k}.v")
+        name = os.path.join(BUILD, f"cases_{tag}_p{os.getpid()}_{k}.v")
         with open(name, "w") as f:
             f.write(f"From ISLA Require Import {imports}.\n")
             f.write("From Coq Require Import List NArith ZArith. Import ListNotations.\n")
@@ -328,7 +328,7 @@ def coq_mismatches(tag, imports, ok_def, cases, shard=300, extra_defs=""):
 def coq_eval(tag, imports, expr, extra_defs=""):
     """raw text of `Eval vm_compute in expr` (diagnostics for replay files)"""
     os.makedirs(BUILD, exist_ok=True)
-    name = os.path.join(BUILD, f"eval_{tag}.v")
+    name = os.path.join(BUILD, f"eval_{tag}_p{os.getpid()}.v")
     with open(name, "w") as f:
         f.write(f"From ISLA Require Import {imports}.\n")
         f.write("From Coq Require Import List NArith ZArith. Import ListNotations.\n")
